@@ -30,7 +30,7 @@ FUNCTIONS = [
 BOUNDS = {
     "quick": "9 families x {cdf,icdf,pdf} x every subset of explicitly passed parameters (keyword and positional) x argument "
              "kind scalar/array(2); all parameter values and evaluation points symbolic reals in admissible ranges",
-    "thorough": "as quick plus positional passing, Python-list arguments, arrays of length 3, and two instances "
+    "thorough": "as quick plus positional passing, Python-list arguments, arrays of length 3 and of shape (2,2), and two instances "
                 "evaluated alternately",
 }
 OUTSIDE = [
@@ -49,7 +49,7 @@ METHODS = {"cdf": "cdf", "icdf": "ppf", "pdf": "pdf"}
 
 
 def _x(h, kind, method):
-    n = {"scalar": 1, "array": 2, "array3": 3, "list": 2}[kind]
+    n = {"scalar": 1, "array": 2, "array3": 3, "list": 2, "array2x2": 4}[kind]
     if method == "icdf":
         xs = [h.real(f"p{i}", 0.02, 0.98) for i in range(n)]
     else:
@@ -58,6 +58,8 @@ def _x(h, kind, method):
         return xs[0], xs
     if kind == "list":
         return list(xs), xs
+    if kind == "array2x2":
+        return h.arr(xs).reshape(2, 2), xs
     return h.arr(xs), xs
 
 
@@ -137,7 +139,7 @@ def h_normfit_moments(h):
 
 
 def obligations(tier):
-    kinds = ["scalar", "array"] if tier == "quick" else ["scalar", "array", "array3", "list"]
+    kinds = ["scalar", "array"] if tier == "quick" else ["scalar", "array", "array3", "list", "array2x2"]
     passings = ["kw", "pos"]
     for fname, fam in FAMILIES.items():
         for method in METHODS:
